@@ -364,6 +364,79 @@ def compute_vc_evaluated(fi: FuncInfo):
     return OK, "message on every edge = posterior of its variable minus the check's message on the same edge (leaf variables included)"
 
 
+def bp_cv_tabulated(repo: Repo):
+    """BeliefPropagationDecoder.compute_cv (exact arctanh mode and the series mode, module helpers followed) evaluated with own arithmetic on two
+    Tanner graphs whose tables the checker computes from H (one has a check of degree 1) and three rows of messages (one with exact zeros): the
+    message on edge e of check c must be 2 atanh(product over the OTHER edges of c of tanh(vc / 2)), 0 for a check of
+    degree 1, delivered in edge order.  Returns (status, detail) or (None, reason); cached on the repository object."""
+    if hasattr(repo, "_kv_bp_cv"):
+        return repo._kv_bp_cv
+    from ..constfold import PySeq, Unfoldable
+    from ..frag import FragRaise, FragReturn, run_fragment
+
+    def done(st, d):
+        repo._kv_bp_cv = (st, d)
+        return st, d
+
+    ci = repo.cls(BP, "BeliefPropagationDecoder")
+    fi = repo.method(ci, "compute_cv")
+    funcs = {nm: f.node for nm, f in ci.module.functions.items()}
+    funcs.update({f"self.{nm}": m.node for nm, m in ci.methods.items() if nm not in ("forward", "__init__", "compute_cv")})
+    for mi_ in repo.modules.values():
+        if mi_.relpath == "kaira/models/fec/utils.py":
+            funcs.update({nm: f.node for nm, f in mi_.functions.items()})
+    cases = 0
+    H1 = [[1, 1, 1, 0, 0], [0, 1, 0, 1, 0], [1, 1, 0, 0, 1], [0, 0, 0, 1, 0]]
+    for H, not_ldpc, exact in ((H1, True, True), ([[1, 1, 0, 1, 0, 0], [0, 1, 1, 0, 1, 0], [1, 0, 1, 0, 0, 1]], False, True), (H1, True, False), ([[1, 1, 1, 0, 0], [0, 0, 0, 1, 0], [0, 1, 0, 1, 0], [1, 1, 0, 0, 1]], True, True)):
+        n_c, n_v = len(H), len(H[0])
+        cv_map = [[] for _ in range(n_c)]
+        e = 0
+        for v in range(n_v):
+            for c in range(n_c):
+                if H[c][v]:
+                    cv_map[c].append(e)
+                    e += 1
+        cdeg = [sum(r) for r in H]
+        groups = []
+        for i, d in enumerate(cdeg):
+            if groups and cdeg[groups[-1][-1]] == d:
+                groups[-1].append(i)
+            else:
+                groups.append([i])
+        order = [x for c in range(n_c) for x in cv_map[c]]
+        cv_order = [0] * e
+        for k_, x in enumerate(order):
+            cv_order[x] = k_
+        ext_ce = PySeq([[[x for k_, x in enumerate(m) if k_ != j] for j in range(len(m))] if len(m) > 1 else [] for m in cv_map])
+        vcs = [[((-1) ** (i * 3 + r)) * (0.3 + 0.29 * ((i * 7 + r * 5) % 9)) for i in range(e)] for r in range(2)]
+        vcs.append([0.0 if i % 4 == 1 else x for i, x in enumerate(vcs[0])])  # exact zeros: a formula that divides the own message back out fails here
+        attrs = {"self.cv_group": PySeq([PySeq(g) for g in groups]), "self.check_degree": list(cdeg), "self.chk_degree": list(cdeg), "self.ext_ce": ext_ce, "self.cv_order": list(cv_order), "self.not_ldpc": not_ldpc, "self.arctanh": exact, "self.device": "cpu", "self.num_edges": e}
+        try:
+            run_fragment(fi.body, {"vc": [list(r) for r in vcs]}, attrs, funcs=funcs, materialise=True, max_steps=4000000, attrs_live=True)
+            return done(None, "no value returned")
+        except FragReturn as ret:
+            got = ret.value
+        except (Unfoldable, FragRaise, TypeError, IndexError, ValueError, KeyError, OverflowError) as exc:
+            return done(None, str(exc))
+        if not (isinstance(got, list) and len(got) == 3 and all(isinstance(r, list) and len(r) == e and all(isinstance(x, (int, float)) and not isinstance(x, bool) for x in r) for r in got)):
+            return done(None, f"the result is not a (3, {e}) block of real messages")
+        for r in range(3):
+            for c in range(n_c):
+                for j, edge in enumerate(cv_map[c]):
+                    oth = [vcs[r][x] for k_, x in enumerate(cv_map[c]) if k_ != j]
+                    if oth:
+                        p_ = 1.0
+                        for x in oth:
+                            p_ *= math.tanh(x / 2)
+                        want = 2 * math.atanh(max(-0.999, min(0.999, p_)))
+                    else:
+                        want = 0.0
+                    if abs(got[r][edge] - want) > 1e-6:
+                        return done(VIOLATION, f"H = {H}, arctanh={exact}: the message to edge {edge} of check {c} (other incoming messages {[round(x, 3) for x in oth]}) is {got[r][edge]:.6g}; 2 atanh(product of tanh(vc / 2) over the other edges) is {want:.6g} - the check-node update does not deliver each check's extrinsic product on that check's own edges")
+                    cases += 1
+    return done(OK, f"{cases} check-to-variable messages on three graphs (irregular with a degree-1 check last and in the middle, regular; exact and series arctanh): 2 atanh of the tanh product over the other edges, in edge order")
+
+
 def rule_bp(repo: Repo, rep: Report) -> int:
     ci = repo.cls(BP, "BeliefPropagationDecoder")
     n = 0
@@ -381,22 +454,27 @@ def rule_bp(repo: Repo, rep: Report) -> int:
         form(rep, "BP-UPDATE", vc, one(assigns(vc, "vc")).value if one(assigns(vc, "vc")) else None, ["reordered_soft_input - cv"], "vc = posterior - incoming cv (extrinsic)", "the variable-to-check message must exclude the message that came over the same edge", num=([{"reordered_soft_input": 1.7, "cv": 0.4}, {"reordered_soft_input": -0.3, "cv": 2.0}], lambda p: p["reordered_soft_input"] - p["cv"]))
     n += 3
     cv = repo.method(ci, "compute_cv")
-    a = assigns(cv, "tanh_vc")
-    form(rep, "BP-UPDATE", cv, a[0].value if len(a) == 1 else None, ["torch.tanh(vc / 2.0)", "torch.tanh(vc * 0.5)", "torch.tanh(0.5 * vc)"], "tanh domain", "the sum-product rule works on tanh(L/2)", num=([{"vc": x} for x in (-3.0, -0.7, 0.4, 2.5)], lambda p: math.tanh(p["vc"] / 2)))
-    g = [s for s in assigns(cv, "vc_extended") if isinstance(s.value, ast.Call) and isinstance(s.value.func, ast.Attribute) and s.value.func.attr == "gather"]
-    form(rep, "BP-UPDATE", cv, g[0].value if len(g) == 1 else None, ["vc_extended.gather(2, ext_ce)"], "extrinsic messages gathered along axis 2")
-    a = assigns(cv, "vc_extended_log2")
-    form(rep, "BP-UPDATE", cv, a[0].value if len(a) == 1 else None, ["torch.log2(vc_extended.to(dtype=torch.complex64) + 1e-10)", "torch.log2(vc_extended.to(torch.complex64) + 1e-10)"], "product as a complex log-sum")
-    a = [s for s in assigns(cv, "v_messages") if isinstance(s.value, ast.Call) and call_name(s.value) == "torch.sum"]
-    form(rep, "BP-UPDATE", cv, a[0].value if len(a) == 1 else None, ["torch.sum(vc_extended_log2, dim=2)", "vc_extended_log2.sum(dim=2)", "torch.sum(vc_extended_log2, 2)"], "product over the extrinsic axis", "the product must run over the extrinsic axis (2): one value per edge")
-    a = assigns(cv, "v_messages_msg")
-    form(rep, "BP-UPDATE", cv, a[0].value if len(a) == 1 else None, ["torch.pow(2, v_messages).real", "(2 ** v_messages).real", "torch.exp2(v_messages).real"], "back from the log2 domain")
-    a = [s for s in assigns(cv, "v_messages") if "arctanh" in unparse(s.value) and "Taylor" not in unparse(s.value)]
-    form(rep, "BP-UPDATE", cv, a[0].value if len(a) == 1 else None, ["2 * torch.arctanh(v_messages)", "2.0 * torch.arctanh(v_messages)", "2 * torch.atanh(v_messages)"], "LLR = 2 atanh(prod tanh(vc/2))", "the check-to-variable LLR is 2*atanh of the tanh product", num=([{"v_messages": x} for x in (-0.9, -0.3, 0.2, 0.8)], lambda p: 2 * math.atanh(p["v_messages"])))
-    a = [s for s in assigns(cv, "v_messages") if "Taylor_arctanh" in unparse(s.value)]
-    form(rep, "BP-UPDATE", cv, a[0].value if len(a) == 1 else None, ["2 * Taylor_arctanh(v_messages)", "2.0 * Taylor_arctanh(v_messages)"], "Taylor variant: same factor", "the check-to-variable LLR is 2*atanh of the tanh product", num=([{"T": x} for x in (-0.9, 0.2)], lambda p: 2 * p["T"], [("Taylor_arctanh(v_messages)", "T")]))
-    n += 7
-    n += rule_collect(rep, cv, "c_group", "self.cv_group", "cv", "v_messages", reorder=True)
+    cst_, cd_ = bp_cv_tabulated(repo)
+    if cst_ is not None:
+        rep.add("BP-UPDATE", cv, "sum-product check update evaluated on three Tanner graphs (own tables; exact and series arctanh)", cst_, cd_, node=cv.node)
+        n += 9
+    if cst_ is None:
+        a = assigns(cv, "tanh_vc")
+        form(rep, "BP-UPDATE", cv, a[0].value if len(a) == 1 else None, ["torch.tanh(vc / 2.0)", "torch.tanh(vc * 0.5)", "torch.tanh(0.5 * vc)"], "tanh domain", "the sum-product rule works on tanh(L/2)", num=([{"vc": x} for x in (-3.0, -0.7, 0.4, 2.5)], lambda p: math.tanh(p["vc"] / 2)))
+        g = [s for s in assigns(cv, "vc_extended") if isinstance(s.value, ast.Call) and isinstance(s.value.func, ast.Attribute) and s.value.func.attr == "gather"]
+        form(rep, "BP-UPDATE", cv, g[0].value if len(g) == 1 else None, ["vc_extended.gather(2, ext_ce)"], "extrinsic messages gathered along axis 2")
+        a = assigns(cv, "vc_extended_log2")
+        form(rep, "BP-UPDATE", cv, a[0].value if len(a) == 1 else None, ["torch.log2(vc_extended.to(dtype=torch.complex64) + 1e-10)", "torch.log2(vc_extended.to(torch.complex64) + 1e-10)"], "product as a complex log-sum")
+        a = [s for s in assigns(cv, "v_messages") if isinstance(s.value, ast.Call) and call_name(s.value) == "torch.sum"]
+        form(rep, "BP-UPDATE", cv, a[0].value if len(a) == 1 else None, ["torch.sum(vc_extended_log2, dim=2)", "vc_extended_log2.sum(dim=2)", "torch.sum(vc_extended_log2, 2)"], "product over the extrinsic axis", "the product must run over the extrinsic axis (2): one value per edge")
+        a = assigns(cv, "v_messages_msg")
+        form(rep, "BP-UPDATE", cv, a[0].value if len(a) == 1 else None, ["torch.pow(2, v_messages).real", "(2 ** v_messages).real", "torch.exp2(v_messages).real"], "back from the log2 domain")
+        a = [s for s in assigns(cv, "v_messages") if "arctanh" in unparse(s.value) and "Taylor" not in unparse(s.value)]
+        form(rep, "BP-UPDATE", cv, a[0].value if len(a) == 1 else None, ["2 * torch.arctanh(v_messages)", "2.0 * torch.arctanh(v_messages)", "2 * torch.atanh(v_messages)"], "LLR = 2 atanh(prod tanh(vc/2))", "the check-to-variable LLR is 2*atanh of the tanh product", num=([{"v_messages": x} for x in (-0.9, -0.3, 0.2, 0.8)], lambda p: 2 * math.atanh(p["v_messages"])))
+        a = [s for s in assigns(cv, "v_messages") if "Taylor_arctanh" in unparse(s.value)]
+        form(rep, "BP-UPDATE", cv, a[0].value if len(a) == 1 else None, ["2 * Taylor_arctanh(v_messages)", "2.0 * Taylor_arctanh(v_messages)"], "Taylor variant: same factor", "the check-to-variable LLR is 2*atanh of the tanh product", num=([{"T": x} for x in (-0.9, 0.2)], lambda p: 2 * p["T"], [("Taylor_arctanh(v_messages)", "T")]))
+        n += 7
+        n += rule_collect(rep, cv, "c_group", "self.cv_group", "cv", "v_messages", reorder=True)
     mg = repo.method(ci, "marginalize")
     a = [s for s in assigns(mg, "msg")]
     form(rep, "BP-UPDATE", mg, a[0].value if len(a) >= 1 else None, ["cv_extended.gather(2, edges)"], "incoming messages of each variable")
@@ -607,7 +685,7 @@ def minsum_correction_evaluated(ci):
     return OK, f"composition of {len(body)} statement(s) equals m * scaling_factor - sign(.) * offset on {len(pts)} configurations (scaling 1 and offset 0 included)"
 
 
-def minsum_tabulated(repo: Repo):
+def _minsum_tabulated(repo: Repo):
     """MinSumLDPCDecoder.compute_cv (the class's override, which delegates to compute_cv_minsum; class helpers followed)
     evaluated with own arithmetic on two Tanner graphs whose tables are computed by the checker from H, two rows of
     variable-to-check messages, and four (scaling, offset) configurations: the message on edge e of check c must be
@@ -622,7 +700,7 @@ def minsum_tabulated(repo: Repo):
         return None, "compute_cv not found"
     funcs = {f"self.{nm}": m.node for nm, m in ci.methods.items() if nm not in ("forward", "__init__", top.name)}
     cases = 0
-    for H, not_ldpc in (([[1, 1, 1, 0, 0], [0, 1, 0, 1, 0], [1, 1, 0, 0, 1], [0, 0, 0, 1, 0]], True), ([[1, 1, 0, 1, 0, 0], [0, 1, 1, 0, 1, 0], [1, 0, 1, 0, 0, 1]], False)):
+    for H, not_ldpc in (([[1, 1, 1, 0, 0], [0, 1, 0, 1, 0], [1, 1, 0, 0, 1], [0, 0, 0, 1, 0]], True), ([[1, 1, 0, 1, 0, 0], [0, 1, 1, 0, 1, 0], [1, 0, 1, 0, 0, 1]], False), ([[1, 1, 1, 0, 0], [0, 0, 0, 1, 0], [0, 1, 0, 1, 0], [1, 1, 0, 0, 1]], True)):
         n_c, n_v = len(H), len(H[0])
         cv_map = [[] for _ in range(n_c)]
         e = 0
@@ -644,6 +722,7 @@ def minsum_tabulated(repo: Repo):
             cv_order[x] = k_
         ext_ce = PySeq([[[x for k_, x in enumerate(m) if k_ != j] for j in range(len(m))] if len(m) > 1 else [] for m in cv_map])
         vcs = [[((-1) ** (i * 3 + r)) * (0.3 + 0.37 * ((i * 7 + r * 5) % 11)) for i in range(e)] for r in range(2)]
+        vcs.append([0.0 if i % 4 == 1 else x for i, x in enumerate(vcs[0])])
         for sf, off in ((1.0, 0.0), (0.75, 0.0), (1.0, 0.1), (0.8, 0.25)):
             attrs = {"self.cv_group": PySeq([PySeq(g) for g in groups]), "self.check_degree": list(cdeg), "self.chk_degree": list(cdeg), "self.ext_ce": ext_ce, "self.cv_order": list(cv_order), "self.not_ldpc": not_ldpc, "self.scaling_factor": sf, "self.offset": off, "self.device": "cpu", "self.num_edges": e, "self.normalized": sf != 1.0, "self.arctanh": True}
             try:
@@ -653,9 +732,9 @@ def minsum_tabulated(repo: Repo):
                 got = ret.value
             except (Unfoldable, FragRaise, TypeError, IndexError, ValueError, KeyError) as exc:
                 return None, str(exc)
-            if not (isinstance(got, list) and len(got) == 2 and all(isinstance(r, list) and len(r) == e and all(isinstance(x, (int, float)) and not isinstance(x, bool) for x in r) for r in got)):
-                return None, f"the result is not a (2, {e}) block of messages"
-            for r in range(2):
+            if not (isinstance(got, list) and len(got) == 3 and all(isinstance(r, list) and len(r) == e and all(isinstance(x, (int, float)) and not isinstance(x, bool) for x in r) for r in got)):
+                return None, f"the result is not a (3, {e}) block of messages"
+            for r in range(3):
                 for c in range(n_c):
                     for j, edge in enumerate(cv_map[c]):
                         oth = [vcs[r][x] for k_, x in enumerate(cv_map[c]) if k_ != j]
@@ -670,7 +749,20 @@ def minsum_tabulated(repo: Repo):
                         if abs(got[r][edge] - want) > 1e-9:
                             return VIOLATION, f"H = {H}, scaling {sf}, offset {off}: the message to edge {edge} of check {c} (other incoming messages {[round(x, 3) for x in oth]}) is {got[r][edge]:.6g}; sign product * minimum magnitude, scaled by {sf} and reduced by the offset {off}, is {want:.6g}"
                         cases += 1
-    return OK, f"{cases} check-to-variable messages on two graphs (irregular with a degree-1 check, regular), four (scaling, offset) configurations: sign product times minimum magnitude of the other edges, scaled, then offset"
+    return OK, f"{cases} check-to-variable messages on three graphs (irregular with a degree-1 check last and in the middle, regular; one row with exact zeros), four (scaling, offset) configurations: sign product times minimum magnitude of the other edges, scaled, then offset"
+
+
+def minsum_tabulated(repo: Repo):
+    if not hasattr(repo, "_kv_ms_cv"):
+        repo._kv_ms_cv = _minsum_tabulated(repo)
+    return repo._kv_ms_cv
+
+
+def _cv_decided(repo: Repo, fname: str) -> bool:
+    """The check update `fname` is decided by evaluation (either way): the rank and extrinsic-path rules, which read the
+    function's shape, add nothing and are skipped."""
+    st, _ = bp_cv_tabulated(repo) if fname == "compute_cv" else minsum_tabulated(repo)
+    return st is not None
 
 
 def rule_minsum(repo: Repo, rep: Report) -> int:
@@ -679,7 +771,7 @@ def rule_minsum(repo: Repo, rep: Report) -> int:
     n = 0
     mst_, md_ = minsum_tabulated(repo)
     if mst_ is not None:
-        rep.add("MINSUM", fi, "min-sum check update evaluated on two Tanner graphs and four (scaling, offset) configurations", mst_, md_, node=fi.node)
+        rep.add("MINSUM", fi, "min-sum check update evaluated on three Tanner graphs and four (scaling, offset) configurations", mst_, md_, node=fi.node)
         return 12
     ov = repo.method(ci, "compute_cv")
     rets = [s for s in ast.walk(ov.node) if isinstance(s, ast.Return)]
@@ -902,6 +994,10 @@ def rule_rank(repo: Repo, rep: Report) -> int:
     for file, cname, fname in ((BP, "BeliefPropagationDecoder", "compute_cv"), (MS, "MinSumLDPCDecoder", "compute_cv_minsum")):
         ci = repo.cls(file, cname)
         fi = repo.method(ci, fname)
+        if _cv_decided(repo, fname):
+            rep.ok("RANK", fi, f"{cname}.{fname}: decided by the evaluated check update", "the evaluation compares every edge's message with the function of the other edges' messages (zeros included)", node=fi.node, nontrivial=False)
+            n += 1
+            continue
         it = Rank(fi)
         it.repo = repo
         it.run({"vc": 2})
@@ -946,6 +1042,10 @@ def rule_extrinsic(repo: Repo, rep: Report) -> int:
     for file, cname, fname in ((BP, "BeliefPropagationDecoder", "compute_cv"), (MS, "MinSumLDPCDecoder", "compute_cv_minsum")):
         ci = repo.cls(file, cname)
         fi = repo.method(ci, fname)
+        if _cv_decided(repo, fname):
+            rep.ok("EXTRINSIC", fi, f"{cname}.{fname}: decided by the evaluated check update", "the evaluation compares every edge's message with the function of the other edges' messages (zeros included)", node=fi.node, nontrivial=False)
+            n += 1
+            continue
         defs: Dict[str, List[ast.AST]] = {}
         for s_ in ast.walk(fi.node):
             if isinstance(s_, ast.Assign):
